@@ -61,7 +61,8 @@ MEM_ENTRIES = ["memory.MemoryStore.__init__", "memory.MemorySource.__init__", "m
 FS_SRC_ENTRIES = ["filesystem.FileSystemSource.get", "filesystem.FileSystemSource.all_versions", "filesystem.FileSystemSource.query",
                   "filesystem.FileSystemStore.get", "filesystem.FileSystemStore.all_versions", "filesystem.FileSystemStore.query"]
 FS_SINK_ENTRIES = ["filesystem.FileSystemSink.add", "filesystem.FileSystemStore.add"]
-DRIVEN = PARSE_ENTRIES + OBS_ENTRIES + MEM_ENTRIES + FS_SRC_ENTRIES + FS_SINK_ENTRIES
+WB_ENTRIES = ["workbench.parse", "workbench.save"]      # driven in a worker of their own (the import patches the registry)
+DRIVEN = PARSE_ENTRIES + OBS_ENTRIES + MEM_ENTRIES + FS_SRC_ENTRIES + FS_SINK_ENTRIES + WB_ENTRIES
 # entries of the table that are not driven: internal helpers (covered by the theorem, reached through the
 # public ones), TAXII (needs a server), the workbench (importing it patches every class)
 OWN_ALLOW_ARG = set(PARSE_ENTRIES + OBS_ENTRIES + MEM_ENTRIES[:3])
@@ -156,7 +157,10 @@ def cfg_grid(entry, tier):
             c = dict(v)
             c.update(a)
             out.append(c)
-            if entry in PARSE_ENTRIES + OBS_ENTRIES:
+            if entry == "workbench.save" and a:
+                out.pop()           # the workbench store is MemoryStore(): no allow_custom to give
+                continue
+            if entry in PARSE_ENTRIES + OBS_ENTRIES + ["workbench.parse"]:
                 c2 = dict(c)
                 c2["interoperability"] = True
                 out.append(c2)
@@ -480,6 +484,30 @@ def check(run):
             run.coverage["obligations"] += len(common.theorems_in("Props/C14.v"))
             model_ok = False
 
+    # second proof file: the schema interpreter's detect_version (C01/C03) agrees with Model/VersionDetect.v.
+    # It depends on the schema family's files; only a failure inside the C14 files is a C14 obligation failure.
+    schema_ok = False
+    with common.Lock():
+        try:
+            res2 = common.build_props("Props/C14Schema.v")
+            run.coverage["obligations"] += res2["obligations"]
+            run.coverage["discharged"] += res2["discharged"]
+            run.coverage.setdefault("print_assumptions", {}).update(
+                {k: (v or "Closed under the global context") for k, v in res2["assumptions"].items()})
+            schema_ok = res2["ok"]
+            if not res2["ok"]:
+                fa = res2["failed_at"] or ("?", 0, "?")
+                if fa[0] in ("Proofs/C14SchemaAgree.v", "Props/C14Schema.v"):
+                    run.broken.append(Broken("obligation", "%s (Model/Schema.v detect_version vs Model/VersionDetect.v detect)" % fa[2],
+                                             {"file": fa[0], "line": fa[1], "log_tail": res2["log_tail"][-1500:]}))
+                else:
+                    run.notes.append("Props/C14Schema.v not checked: %s does not build (not a C14 file)" % fa[0])
+            for name, bad in res2["bad_axioms"]:
+                run.broken.append(Broken("assumption", name, {"axioms": bad}))
+        except Exception as e:  # noqa: BLE001
+            run.notes.append("Props/C14Schema.v not checked: %s" % e)
+    run.coverage["schema_agreement_checked"] = schema_ok
+
     md, reg = probe_modes(run)
     run.coverage["variant"] = dict(md)
     run.coverage["registry_sizes"] = {k: len(v) for k, v in reg.items()}
@@ -499,6 +527,7 @@ def check(run):
     run.coverage["table_entries"] = table_entries
     run.coverage["table_refuted"] = refuted
     undriven = [e for e in table_entries if e not in DRIVEN]
+    run.coverage["driven_entries"] = [e for e in table_entries if e in DRIVEN]
     run.coverage["entries_not_driven"] = undriven
     missing = [e for e in DRIVEN if model_ok and e not in table_entries]
     if missing:
@@ -530,6 +559,30 @@ def check(run):
                     c2["wrap"] = "list"
                     plan.append((pi, e, c2))
 
+    # the workbench: every save gets a dictionary with an id of its own (the store is a module global)
+    n_plain = len(probes)
+    for pi in range(n_plain):
+        p = probes[pi]
+        if p["kind"] == "bundle" or (run.tier != "thorough" and pi % 2 and p["variant"] not in ("witness", "zero-uuid", "v1-uuid")):
+            continue
+        probes.append(dict(p, wb=True))
+        qi = len(probes) - 1
+        for cfg in cfgs.setdefault("workbench.parse", cfg_grid("workbench.parse", run.tier)):
+            plan.append((qi, "workbench.parse", cfg))
+        if p["kind"] == "observable" and "id" not in p["data"]:
+            continue
+        for cfg in cfgs.setdefault("workbench.save", cfg_grid("workbench.save", run.tier)):
+            d = p["data"]
+            if p["variant"] not in ("witness", "zero-uuid") and isinstance(d.get("id"), str) and "--" in d["id"]:
+                old = d["id"].split("--", 1)[1]
+                nib = 1 if p["variant"] == "v1-uuid" else 4
+                b = bytearray(run.rng.getrandbits(8) for _ in range(16))
+                b[6] = (b[6] & 0x0F) | (nib << 4)
+                b[8] = (b[8] & 0x3F) | 0x80
+                d = json.loads(json.dumps(d).replace(old, str(uuid.UUID(bytes=bytes(b)))))
+            probes.append(dict(p, wb=True, data=d))
+            plan.append((len(probes) - 1, "workbench.save", cfg))
+
     # model: the triple(s) each (entry, cfg) hands to the parser
     eff = {}
     if model_ok:
@@ -558,7 +611,15 @@ def check(run):
         if any(cfg.get("wrap") == "bundlefile" for _, cfg in by_probe[pi]):
             case["direct_bundle"] = [[ac, io_, v] for ac, io_, v in DIRECT_GRID]
         cases.append(case)
-    impl = common.run_impl("c14_impl", cases)
+    wb_idx = [k for k, pi in enumerate(order) if probes[pi].get("wb")]
+    plain_idx = [k for k, pi in enumerate(order) if not probes[pi].get("wb")]
+    impl = [None] * len(cases)
+    for k, r in zip(plain_idx, common.run_impl("c14_impl", [cases[k] for k in plain_idx])):
+        impl[k] = r
+    if wb_idx:
+        for k, r in zip(wb_idx, common.run_impl("c14_impl", [cases[k] for k in wb_idx], args=("workbench",))):
+            impl[k] = r
+    run.coverage["workbench_cases"] = len(wb_idx)
 
     dis, n_cmp, n_model_unknown = [], 0, 0
     for pi, c, r in zip(order, cases, impl):
@@ -663,6 +724,12 @@ def check(run):
         except RuntimeError as e:
             run.broken.append(Broken("correspondence", "model evaluation failed", {"error": str(e)[-1500:]}))
 
+    if model_ok and schema_ok:
+        try:
+            schema_stream(run, md)
+        except RuntimeError as e:
+            run.notes.append("schema/C14 detect stream not run: %s" % str(e)[-300:])
+
     # a failed obligation over the generated table: say which entry points / call sites
     if refuted and any(b.kind == "obligation" for b in run.broken):
         for b in run.broken:
@@ -679,7 +746,8 @@ def check(run):
         "the parser's use of allow_custom/interoperability inside the classes (property cleaning) is the subject of C02-C04; "
         "C14 stops at the constructor call obj_class(allow_custom=.., interoperability=.., **data)",
         "TAXII source/sink: in the theorems, not driven (no server, taxii2client not installed)",
-        "workbench.* aliases: in the theorems, not driven (importing stix2.workbench patches every class)",
+        "workbench.parse / workbench.save are driven in a worker process of their own (importing stix2.workbench replaces the "
+        "2.1 SDO classes of the registry by factory functions); the other workbench aliases take no version",
         "the shapes of `emitted` (Props/C14.v) are what the serialiser emits; checked by handing real serialisations of every "
         "class back through the entry points",
     ]
@@ -791,6 +859,62 @@ def correspond_models(run, md, reg, probes):
     if dis:
         run.coverage["idcheck_first_disagreements"] = dis[:8]
         run.broken.append(Broken("correspondence", "Model/IdCheck.v validate_id vs IDProperty/ReferenceProperty.clean", {"first": dis[:5]}))
+
+
+SCHEMA_HEADER = """From Coq Require Import NArith ZArith List String.
+From V Require Import Base.UString Base.Json Model.SchemaTypes Model.PyBase Model.Schema Model.VersionDetect Gen.Tables Proofs.C14SchemaAgree.
+Import ListNotations. Open Scope string_scope.
+Definition show_sres (r : result (option ver)) : string :=
+  match r with
+  | Ok (Some V20) => "V20" | Ok (Some V21) => "V21" | Ok None => "none"
+  | Err EValueError => "ValueError" | Err (EOther n) => show_ustr n
+  | Err _ => "Err-other" | Unmodelled => "unmodelled"
+  end.
+"""
+
+
+def schema_stream(run, md):
+    """the two models of detect_spec_version against each other on generated dictionaries (world = Gen/Tables.v):
+    the success side is a theorem (Props/C14Schema.v); this also looks at the error side"""
+    n = 1500 if run.tier == "thorough" else 300
+    dicts = [d for d in gen_detect_dicts(run, {"2.0/objects": ["identity", "indicator"], "2.1/objects": ["identity", "grouping"],
+                                               "2.0/observables": ["file"], "2.1/observables": ["file", "url", "software"]}, n)
+             if isinstance(d, dict) and not has_float(d)]
+    header = SCHEMA_HEADER + "Definition md := %s.\nDefinition vr := %s.\n" % (
+        coq_mode(md), "variant_repaired" if md["bundle_default"] else "variant_pinned")
+    terms = []
+    for d in dicts:
+        j = common.coq_jvalue(d)
+        terms.append('match %s with JObj m => show_sres (Schema.detect_version vr lib 60 m) ++ " | " ++ '
+                     'show_dres (VersionDetect.detect md (obs21_of lib) (JObj m)) | _ => "nondict" end' % j)
+    lines = common.coq_eval_lines("c14s", header, terms, shard=150)
+    succ_bad, err_diff, skipped = [], [], 0
+    for d, ln in zip(dicts, lines):
+        a, b = ln.split(" | ", 1)
+        if a == "unmodelled":
+            skipped += 1
+            continue
+        if a in ("V20", "V21"):
+            good = b == "V '%s'" % {"V20": "2.0", "V21": "2.1"}[a]
+        elif a == "none":
+            good = b.startswith("V ") and b not in ("V '2.0'", "V '2.1'") and not b.startswith("V [") and not b.startswith("V {")
+        elif a == "KeyError":
+            good = b.startswith("KeyError") or b == "ParseError"
+        elif a == "TypeError":
+            good = b == "TypeError" or b.startswith("V [") or b.startswith("V {")
+        elif a == "ValueError":
+            good = b == "ValueError"
+        else:
+            good = False
+        if not good:
+            (succ_bad if a in ("V20", "V21", "none") else err_diff).append({"data": d, "schema": a, "c14": b})
+    run.coverage["schema_stream_cases"] = len(dicts)
+    run.coverage["schema_stream_unmodelled_by_schema"] = skipped
+    run.coverage["schema_stream_error_side_differences"] = len(err_diff)
+    run.coverage["schema_stream_error_side_first"] = err_diff[:5]
+    if succ_bad:
+        run.broken.append(Broken("correspondence", "Model/Schema.v detect_version vs Model/VersionDetect.v detect (success side)",
+                                 {"first": succ_bad[:5]}))
 
 
 def replay(payload):
